@@ -618,5 +618,38 @@ def run_C18(ctx):
             if ctx.evaluations % 23 == 2:
                 ctx.sample(dict(grammar=gname, states=n, listing_head=d['stdout'][:200], dot_head=dot[:200]))
         ctx.extra['grammars'] = len(gs)
+        ctx.extra['escape_model'] = escape_compare(ctx, [s['name'] for d in dumps if d.get('ok') for s in d['symbols']])
     finally:
         shutil.rmtree(work, ignore_errors=True)
+
+
+def escape_compare(ctx, names):
+    """utils.EscapeDotGraph (built from /repo) against the Coq model EscapeDot.escape on symbol names of the corpus and on
+    random strings rich in record metacharacters; the model also reads the escaped text back (split at unprotected bars)."""
+    rnd = random.Random(ctx.seed * 4409 + 3)
+    alpha = '\\"<>{}|ab $\'%:-'
+    strs = list(dict.fromkeys(names))[:300] + [''.join(rnd.choice(alpha) for _ in range(rnd.randint(0, 12))) for _ in range(300 if ctx.quick else 5000)]
+    strs = [x for x in strs if x]
+    bindir = vlib.build_impl()
+    r = vlib.sh([os.path.join(bindir, 'escape')], input=''.join(x.encode('utf8').hex() + '\n' for x in strs), timeout=300)
+    impl = r.stdout.split()
+    cmds = ['D e%d %s\n' % (i, x.encode('utf8').hex()) for i, x in enumerate(strs)]
+    model = {}
+    for ln in vlib.model_eval_chunks(cmds):
+        f = ln.split()
+        if len(f) >= 3 and f[0] == 'D':
+            model[f[1]] = (f[2], f[3] if len(f) > 3 else '')
+    unhex = lambda h: bytes.fromhex(h if h and h != '-' else '').decode('utf8', 'replace')
+    bad = 0
+    for i, x in enumerate(strs):
+        ctx.evaluations += 1
+        m = model.get('e%d' % i)
+        got = impl[i] if i < len(impl) else None
+        back = None if m is None else '|'.join(unhex(p) for p in m[1].split(','))
+        if m is None or got != m[0] or back != x:
+            bad += 1
+            if bad <= 2:
+                ctx.violation('counterexample' if (m is not None and got != m[0]) else 'no-failing-input-found',
+                              'EscapeDotGraph(%r) = %r, the model of the escaping gives %r (read back: %r)' % (x, unhex(got), None if m is None else unhex(m[0]), back),
+                              dict(name=x, observed=got, expected=None if m is None else m[0]), interface='I8')
+    return dict(strings=len(strs), differences=bad)
